@@ -728,7 +728,33 @@ def completion_unit(p, item, tier, seed):
         f = copy.deepcopy(tm).define(definition)
         return [list(r) for r in f.get_truth_table()]
 
-    for name, body in (("TruthTableModel.define", tt_body), ("PyFunctionModel.define", py_body),
+    def tt_twice_body():
+        # the model stays a model: after one completion its own table still has its don't-cares, check() and
+        # get_model_truth_table() still agree, an incomplete definition is still refused, and a second completion
+        # does not see anything of the first
+        from cirbo.core.exceptions import BadBooleanValue
+
+        tm = TruthTableModel([["*" if (k, j) in D else False for j in range(rows)] for k in range(m)])
+        tm._table = model_table()
+        tm._table_t = [list(c) for c in zip(*tm._table)]
+        other = {key: SB(z3.Not(v.term)) for key, v in definition.items()}
+        [list(r) for r in tm.define(other).get_truth_table()]
+        still = tm.get_model_truth_table()
+        if any((still[k][j] is DontCare) != ((k, j) in D) for k in range(m) for j in range(rows)):
+            raise AssertionError("completing the model changed the model's own table")
+        if any((tm.check_at(bits_of(j, n), k) == DontCare) != ((k, j) in D) for k in range(m) for j in range(rows)):
+            raise AssertionError("completing the model changed what the model's check_at reports")
+        if definition:
+            first = next(iter(definition))
+            try:
+                tm.define({key: v for key, v in definition.items() if key != first})
+            except BadBooleanValue:
+                pass
+            else:
+                raise AssertionError("a definition that leaves a don't-care cell open was accepted after an earlier completion")
+        return [list(r) for r in tm.define(definition).get_truth_table()]
+
+    for name, body in (("model kept: TruthTableModel.define twice", tt_twice_body), ("TruthTableModel.define", tt_body), ("PyFunctionModel.define", py_body),
                        ("deepcopy(TruthTableModel).define", tt_copy_define_body), ("PyFunctionModel(deepcopy(TruthTableModel).check).define", tt_copy_body),
                        ("PyFunctionModel.define(stored rows, twice)", py_shared_body), ("PyFunctionModel(TruthTableModel.check).define twice", tt_via_py_body)):
         paths, stats = forkexec.explore(body, max_paths=100000, catch=(Exception,))
@@ -755,7 +781,17 @@ def completion_unit(p, item, tier, seed):
                             f"name={name!r}\n"
                             "other={k: (not v) for k,v in definition.items()}\n"
                             "import copy\n"
-                            "try:\n    if name.startswith('TruthTable'): f=TruthTableModel(raw).define(definition)\n"
+                            "try:\n    if name.startswith('model kept'):\n"
+                            "        from cirbo.core.exceptions import BadBooleanValue\n"
+                            "        tm=TruthTableModel(raw); tm.define(other).get_truth_table(); still=tm.get_model_truth_table()\n"
+                            "        assert all((still[k][j] is DontCare)==(raw[k][j] is DontCare) for k in range(m) for j in range(1<<n)), 'model table changed'\n"
+                            "        assert all((tm.check_at(c12.bits_of(j,n),k)==DontCare)==(raw[k][j] is DontCare) for k in range(m) for j in range(1<<n)), 'check_at changed'\n"
+                            "        if definition:\n"
+                            "            first=next(iter(definition))\n"
+                            "            try: tm.define({k:v for k,v in definition.items() if k!=first}); raise AssertionError('incomplete definition accepted')\n"
+                            "            except BadBooleanValue: pass\n"
+                            "        f=tm.define(definition)\n"
+                            "    elif name.startswith('TruthTable'): f=TruthTableModel(raw).define(definition)\n"
                             "    elif name.startswith('deepcopy'): f=copy.deepcopy(TruthTableModel(raw)).define(definition)\n"
                             "    elif 'deepcopy' in name:\n        tm=copy.deepcopy(TruthTableModel(raw)); assert all((tm.check_at(c12.bits_of(j,n),k)==DontCare)==(raw[k][j] is DontCare) for k in range(m) for j in range(1<<n)); f=PyFunctionModel(tm.check, input_size=n, output_size=m).define(definition)\n"
                             "    elif 'TruthTableModel.check' in name:\n        pm=PyFunctionModel(TruthTableModel(raw).check, input_size=n, output_size=m); pm.define(other).get_truth_table(); f=pm.define(definition)\n"
